@@ -377,6 +377,29 @@ func c06Tree(r gen.R, shape string, o ISOOpts) Tree {
 			nat(fmt.Sprintf("%s~%d.dat", base[:6], 1+r.Intn(3)))
 		}
 		return t
+	case "many-dirs":
+		// 50-160 directories with names of 8-30 characters, flat and nested, each holding one file: path tables
+		// (primary and Joliet, whose records are longer) of more than one block
+		var t Tree
+		nd := 50 + r.Intn(110)
+		var dirs []string
+		for i := 0; i < nd; i++ {
+			name := fmt.Sprintf("Directory %03d %s", i, strings.Repeat(string(rune('a'+i%26)), r.Intn(16)))
+			if i%3 == 0 {
+				name = fmt.Sprintf("d%03d", i)
+			}
+			p := name
+			if len(dirs) > 0 && r.Chance(0.35) {
+				parent := gen.Pick(r, dirs)
+				if strings.Count(parent, "/") < 4 {
+					p = parent + "/" + name
+				}
+			}
+			dirs = append(dirs, p)
+			t = append(t, TNode{Path: p, Dir: true})
+			t = append(t, TNode{Path: p + "/f.txt", Size: 20 + i, Seed: uint64(i + 1)})
+		}
+		return t
 	case "same-names":
 		// the same directory names under sibling parents, two and three levels down (en/docs, fr/docs, ...): a
 		// reader that finds a directory by its name and level alone ends up in the neighbour's
@@ -786,29 +809,36 @@ func c06Run(c core.Case, env *core.Env) core.Result {
 }
 
 func init() {
-	shapes := []string{"mixed", "flat-many", "collisions", "deep", "sizes", "longnames", "same-names"}
+	shapes := []string{"mixed", "flat-many", "collisions", "deep", "sizes", "longnames", "same-names", "many-dirs"}
 	core.Register(&core.Check{
 		ID:          "C06",
 		Level:       "exploration",
-		Rule:        "generated workspace trees (mixed; one directory with 130-330 files; 2-40 names colliding after 8.3 truncation; depth 7-11; the same directory names under sibling parents two and three levels down; sizes 0,1,block-1,block,block+1,...,3 MiB; long and Unicode names incl. Rock Ridge names needing continuation areas; symlinks under Rock Ridge; steered trees in which the records of the root, of a subdirectory or of the Joliet root add up to exactly one logical block - names are grown and shrunk with the raw directory re-read after every build until the sum is exact) x {plain, Rock Ridge, Joliet, both} x block size {2048, 4096, 8192} x DeepDirectories x start {0, 1 MiB}, always on storage pre-filled with a non-zero pattern (a reused image file or partition); every file carries unique content so image files are matched to source files by content; the finalized image is walked through iso9660.Read (structure, byte-identical contents, names exact under RR/Joliet, members of the documented 8.3 rule otherwise) and through the independent reader isock over the primary volume descriptor (same files by content, extents inside the image, no overlaps); a Finalize refusal is an observation; non-trivial = tree accepted by Finalize; distinct = distinct (options, start, tree)",
+		Rule:        "generated workspace trees (mixed; one directory with 130-330 files; 2-40 names colliding after 8.3 truncation; depth 7-11; the same directory names under sibling parents two and three levels down; 50-160 directories with names of up to 30 characters (path tables of several blocks); sizes 0,1,block-1,block,block+1,...,3 MiB; long and Unicode names incl. Rock Ridge names needing continuation areas; symlinks under Rock Ridge; steered trees in which the records of the root, of a subdirectory or of the Joliet root add up to exactly one logical block - names are grown and shrunk with the raw directory re-read after every build until the sum is exact) x {plain, Rock Ridge, Joliet, both} x block size {2048, 4096, 8192} x DeepDirectories x start {0, 1 MiB}, always on storage pre-filled with a non-zero pattern (a reused image file or partition); every file carries unique content so image files are matched to source files by content; the finalized image is walked through iso9660.Read (structure, byte-identical contents, names exact under RR/Joliet, members of the documented 8.3 rule otherwise) and through the independent reader isock over the primary volume descriptor (same files by content, extents inside the image, no overlaps); a Finalize refusal is an observation; non-trivial = tree accepted by Finalize; distinct = distinct (options, start, tree)",
 		Assumptions: []string{"isock (internal/isock) is an independent ECMA-119/SUSP/RRIP reader calibrated on hand-made images", "isock rules outside the statement (directory length not a block multiple, dot entries, path tables, record order, SUSP details, Joliet tree extents) are recorded, not reported", "symlinks are only put into Rock Ridge trees; Joliet names are BMP and at most 64 units"},
 		MinSigs:     map[string]int{"quick": 25, "thorough": 500},
-		NeedMarks:   []string{"mode plain", "mode rockridge", "mode joliet", "mode rr+joliet", "image inside a partition", "block 4096", "shape collisions", "shape deep", "shape flat-many", "shape same-names", "records of a directory add up to exactly one block (primary-root)", "records of a directory add up to exactly one block (primary-sub)", "records of a directory add up to exactly one block (joliet-root)"},
+		NeedMarks:   []string{"mode plain", "mode rockridge", "mode joliet", "mode rr+joliet", "image inside a partition", "block 4096", "shape collisions", "shape deep", "shape flat-many", "shape same-names", "shape many-dirs", "records of a directory add up to exactly one block (primary-root)", "records of a directory add up to exactly one block (primary-sub)", "records of a directory add up to exactly one block (joliet-root)"},
 		CPUSec:      600,
 		Cases: func(seed int64, tier string) []core.Case {
 			r := gen.New(seed ^ 0xC06)
-			n := 56
+			// every shape meets every mode in every pass (the full product, so that no pairing is left out by two
+			// cycles falling into step); block size and start offset rotate from pass to pass
+			passes := 2
 			if tier == "thorough" {
-				n = 1500
+				passes = 48
 			}
 			var cs []core.Case
-			for i := 0; i < n; i++ {
-				o := ISOOpts{RockRidge: i%4 == 1 || i%4 == 3, Joliet: i%4 >= 2, Block: []int64{2048, 2048, 4096, 8192}[(i/4)%4], VolID: "VERIF"}
-				shape := shapes[(i/2)%len(shapes)]
-				if shape == "deep" && !o.RockRidge {
-					o.Deep = i%8 >= 4
+			i := 0
+			for pass := 0; pass < passes; pass++ {
+				for si, shape := range shapes {
+					for m := 0; m < 4; m++ {
+						o := ISOOpts{RockRidge: m == 1 || m == 3, Joliet: m >= 2, Block: []int64{2048, 4096, 2048, 8192}[(si+m+pass)%4], VolID: "VERIF"}
+						if shape == "deep" && !o.RockRidge {
+							o.Deep = (pass+m/2)%2 == 1
+						}
+						cs = append(cs, core.MkCase(fmt.Sprintf("tree-%d", i), "tree", r.Int63(), c06Case{Opts: o, Start: []int64{0, 0, 1 << 20}[(si+2*m+pass)%3], Shape: shape}))
+						i++
+					}
 				}
-				cs = append(cs, core.MkCase(fmt.Sprintf("tree-%d", i), "tree", r.Int63(), c06Case{Opts: o, Start: []int64{0, 0, 1 << 20}[i%3], Shape: shape}))
 			}
 			// steered trees: the records of one directory add up to exactly one block
 			for _, blk := range []int64{2048, 4096} {
